@@ -51,6 +51,24 @@ reg("C12",
                  "an element of the retired instance that the fresh instance publishes again in the selection cycle may be reported as (nothing | removed+added | added) - only 'removed only' is rejected"],
     )
 
+_WB = ("switch_ (int keys 0, 1; inputs x and y) whose branches are both SELF-SCHEDULING: the first evaluation of an instance arms a wake-up p later, every wake-up re-arms p later "
+       "(MAXW wake-ups per chain), a tick of x while a wake-up is pending only republishes; y is consumed by no branch; reload_on_ticked enumerated on/off; initial cycle {key 0 + x}, then NEV "
+       "events, each enumerated from {key 0 ticks, key 1 ticks, x ticks, y ticks}; symbolic: period p in [1,PMAX], the gap before every event in [1,DMAX] (engine times, so events fall before / on / "
+       "strictly between / after the branch's wake-ups), every x value (int64); oracle: the (time, value) stream of the switch output and the (time, branch) stream of branch evaluations equal the "
+       "selected instance run alone")
+reg("C12",
+    name="C12_switch_wake", src="harness/C12_switch_wake.cpp", anchor_files=_ANCH + ["include/hgraph/runtime/node_scheduler.h"],
+    quick=dict(defs=dict(NEV=3, PMAX=3, DMAX=2, MAXW=2, RELOADS=2), symx=dict(shards=16, **{"max-wall": 900, "query-timeout-ms": 120000})),
+    thorough=dict(defs=dict(NEV=4, PMAX=4, DMAX=3, MAXW=3, RELOADS=2), symx=dict(shards=16, **{"max-wall": 3000, "shard-depth": 8, "query-timeout-ms": 120000})),
+    reach=["end", "same_key_tick_between_wakeups", "unconsumed_input_tick_between_wakeups", "wakeup_fired_after_idle_switch_cycle",
+           "flip_then_same_key_retick_between_wakeups", "consumed_input_tick_between_wakeups", "switched_away_with_pending_wakeup",
+           "reload_with_pending_wakeup", "wakeup_and_tick_same_cycle", "three_selections"],
+    bounds="quick NEV=3, p<=3, gaps<=2, 2 wake-ups per chain; thorough NEV=4, p<=4, gaps<=3, 3 wake-ups; " + _WB,
+    outside=("branches with several pending timers / tagged schedules, a branch consuming y, more than two keys, default branch and unmatched keys (C12_switch), collection outputs (C12_switch_coll), "
+             "real-time executor, wall-clock alarms"),
+    assumptions=[],
+    )
+
 META = dict(
     level="bounded symbolic model checking of switch_ (wire_switch -> compile_switch_branch -> switch_node: branch selection, A/B slot reuse, sampled "
           "input binding on selection, teardown of the previous instance, reload_on_ticked, default branch, unmatched-key error) against a model with a fresh "
